@@ -180,3 +180,72 @@ def r5(ctx, R):
         pos = len(cs.call.args)
         ok = pos == 0 and need <= kw
         R.check(ok, f'{cs.qual.split(":")[1]} :: get_finite_difference_matrix(...) passes all geometric arguments by keyword', cs.qual, sorted(need), {'positional': pos, 'keywords': sorted(kw)})
+
+
+@rule('C18', 'C18.R6', 'boundary closure reaches every row whose stencil leaves the grid: -min(offsets) rows on the left, max(offsets) rows on the right', floor=2)
+def r6(ctx, R):
+    repo = ctx.repo
+    fn = repo.func(PH, 'get_finite_difference_matrix')
+    w = f'{PH}:get_finite_difference_matrix'
+    R.fn(w)
+    d = [s for s in walk_no_nested(fn) if isinstance(s, ast.Assign) and ast.unparse(s.targets[0]) == 'sWidth']
+    ok = len(d) == 1 and isinstance(d[0].value, ast.IfExp)
+    got = None
+    if ok:
+        v = d[0].value
+        got = {'left (iS == 0)': ast.unparse(v.body) if ast.unparse(v.test) == 'iS == 0' else None, 'right': ast.unparse(v.orelse) if ast.unparse(v.test) == 'iS == 0' else None}
+        if ast.unparse(v.test) == 'iS == 1':
+            got = {'left (iS == 0)': ast.unparse(v.orelse), 'right': ast.unparse(v.body)}
+        ok = got == {'left (iS == 0)': '-min(steps)', 'right': 'max(steps)'}
+    R.check(ok, 'get_finite_difference_matrix :: number of closed rows per side = how far the stencil reaches beyond that side', w, {'left (iS == 0)': '-min(steps)', 'right': 'max(steps)'}, got if got else [ast.unparse(s) for s in d])
+    loops = [l for l in walk_no_nested(fn) if isinstance(l, ast.For) and ast.unparse(l.iter) == 'range(sWidth)']
+    R.check(len(loops) == 1, 'get_finite_difference_matrix :: one closure per such row', w, 'for i in range(sWidth)', len(loops))
+
+
+@rule('C18', 'C18.R7', 'centred layout: number of stencil points = derivative + order - [derivative even] (symbolic parity analysis), offsets centred', floor=2)
+def r7(ctx, R):
+    import sympy as sp
+
+    repo = ctx.repo
+    fn = repo.func(PH, 'get_steps')
+    w = f'{PH}:get_steps'
+    R.fn(w)
+    arm = None
+    for s in walk_no_nested(fn):
+        if isinstance(s, ast.If) and ast.unparse(s.test) == "stencil_type == 'center'":
+            arm = s
+    if arm is None:
+        raise AnalysisError(f'{w}: centre arm not found')
+    defs = {ast.unparse(s.targets[0]): s.value for s in arm.body if isinstance(s, ast.Assign)}
+    if 'n' not in defs or 'steps' not in defs:
+        raise AnalysisError(f'{w}: n / steps not defined in the centre arm')
+    k, o = sp.symbols('k order', integer=True, nonnegative=True)
+
+    def conv(node, der):
+        if isinstance(node, ast.Constant) and isinstance(node.value, int):
+            return sp.Integer(node.value)
+        if isinstance(node, ast.Name):
+            if node.id == 'derivative':
+                return der
+            if node.id == 'order':
+                return o
+            raise AnalysisError(f'get_steps: unknown name {node.id}')
+        if isinstance(node, ast.BinOp):
+            a, b = conv(node.left, der), conv(node.right, der)
+            op = type(node.op)
+            if op is ast.Add:
+                return a + b
+            if op is ast.Sub:
+                return a - b
+            if op is ast.Mult:
+                return a * b
+            if op is ast.Mod:
+                return sp.Mod(a, b)
+            if op is ast.FloorDiv:
+                return sp.floor(a / b)
+        raise AnalysisError(f'get_steps: cannot read {ast.unparse(node)}')
+
+    even = sp.simplify(conv(defs['n'], 2 * k) - o - 2 * k)
+    odd = sp.simplify(conv(defs['n'], 2 * k + 1) - o - (2 * k + 1))
+    R.check(even == -1 and odd == 0, 'get_steps :: centre: n - (derivative + order) is -1 for even and 0 for odd derivatives', w, {'even derivative': -1, 'odd derivative': 0}, {'even derivative': str(even), 'odd derivative': str(odd), 'n': ast.unparse(defs['n'])})
+    R.check(ast.unparse(defs['steps']) == 'np.arange(n) - n // 2', 'get_steps :: centre: offsets are 0..n-1 shifted by n // 2', w, 'np.arange(n) - n // 2', ast.unparse(defs['steps']))
